@@ -131,13 +131,12 @@ theorem augStep_lift {G : List (Nat × Entry)} (hG : NewTrees ds G) (P : List (N
   unfold augStep
   simp only
   have hs : ∃ m' ∈ B.mods, m'.seq = ((id, []) : Loc).1 := hid
-  show (match find X (ext G s.forest) (id, []) a.d.nodeMod a.d.name with
-    | (target, forest) => _) = _
+  simp only [show (lift G P s).forest = ext G s.forest from rfl, show (lift G P s).pending = s.pending ++ P from rfl]
   rw [find_ext h hG s.forest (id, []) a.d.nodeMod a.d.name hs (old_of_mem h ha)]
   have hold := find_tree_old s.forest (id, []) a.d.nodeMod a.d.name hs
   generalize find B s.forest (id, []) a.d.nodeMod a.d.name = r at hold
   obtain ⟨target, f'⟩ := r
-  have e0 : ({ lift G P s with forest := ext G f' } : PState) = lift G P { s with forest := f' } := rfl
+  have e0 : ({ forest := ext G f', pending := s.pending ++ P } : PState) = lift G P { forest := f', pending := s.pending } := rfl
   cases target with
   | none =>
     simp only
@@ -197,7 +196,7 @@ theorem setPending_lift (G : List (Nat × Entry)) {P : List (Nat × List Entry)}
     (hP : ∀ p ∈ P, p.1 ≠ id) : (lift G P s).setPending id l = lift G P (s.setPending id l) := by
   unfold PState.setPending lift
   simp only [List.map_append, PState.mk.injEq, List.append_cancel_left_eq, true_and]
-  rw [List.map_congr_left (g := id)]
+  rw [List.map_congr_left (g := fun x => x)]
   · simp
   · intro p hp
     obtain ⟨i, x⟩ := p
